@@ -6,7 +6,7 @@ env = dict(os.environ, GOFLAGS="-mod=mod", GOPROXY="off", GOSUMDB="off", GOTOOLC
 base = json.load(open("/root/.vp/BASELINE.json"))
 want = set(base["stable_pass"])
 p = subprocess.run(["go", "test", "-json", "-vet=off", "-count=1", "-timeout", "25m", "./..."],
-                   cwd="/repo", env=env, stdout=subprocess.PIPE, stderr=subprocess.STDOUT, text=True)
+                   cwd=os.environ.get("BASELINE_REPO", "/repo"), env=env, stdout=subprocess.PIPE, stderr=subprocess.STDOUT, text=True)
 res = {}
 for line in p.stdout.splitlines():
     try:
